@@ -453,6 +453,8 @@ def replay(ctx, case):
         else:
             between_datetime(ctx, C, s.at(LocalTime.from_nanoseconds_since_midnight(case["ta"])), e.at(LocalTime.from_nanoseconds_since_midnight(case["tb"])),
                              case["a"], case["ta"], case["b"], case["tb"], case["mask"])
+    elif "part" in ctx.shard:
+        run(ctx, ctx.shard)      # original shard restored by the runner
     elif "cal" in case:
         run_cal(ctx, case["cal"], 140)
     else:
